@@ -548,3 +548,32 @@ pub mod varc {
         }
     }
 }
+
+/// A stand-in for the `std` crate root: `use metrique_writer_core::__verif::std_shim as std;`
+/// in a source file makes every `std::sync::..`, `std::thread::..`, `std::time::Instant` path of
+/// that file resolve to the loom-visible facade, everything else to the real `std`.
+pub mod std_shim {
+    pub use ::std::*;
+
+    pub mod sync {
+        pub use super::super::sync::{Arc, Condvar, Mutex, MutexGuard, RwLock};
+        pub use ::std::sync::{LockResult, OnceLock, PoisonError, TryLockError, Weak};
+        pub mod atomic {
+            pub use loom::sync::atomic::*;
+            // `static X: AtomicU64 = AtomicU64::new(..)` (the `rate_limited!` macro) needs a const
+            // constructor, which loom's atomics do not have: 64-bit statics stay std's. They are
+            // invisible to the scheduler; the rate limiter is a function of the fake clock only.
+            pub use ::std::sync::atomic::AtomicU64;
+        }
+        pub mod mpsc {
+            pub use super::super::super::mpsc::*;
+        }
+    }
+    pub mod thread {
+        pub use loom::thread::*;
+    }
+    pub mod time {
+        pub use super::super::time::{Duration, Instant};
+        pub use ::std::time::{SystemTime, UNIX_EPOCH};
+    }
+}
